@@ -325,7 +325,18 @@ class FunTr:
         if isinstance(n, ast.Subscript):
             base = self.expr(n.value, env)
             if isinstance(n.slice, ast.Slice):
-                _bad("slices are not supported", n)
+                if n.slice.step is not None:
+                    _bad("slice step", n)
+                lo = self.expr(n.slice.lower, env, "Z") if n.slice.lower is not None else None
+                hi = self.expr(n.slice.upper, env, "Z") if n.slice.upper is not None else None
+                for b in (lo, hi):
+                    if b is not None and b.ty != "Z":
+                        _bad("slice bound of type %r" % (b.ty,), n)
+                self._elem_ty(base.ty, n)
+                return E(base.pre + (lo.pre if lo else []) + (hi.pre if hi else []),
+                         "(tr_slice %s %s %s)" % (base.text, "(Some %s)" % lo.text if lo else "None",
+                                                  "(Some %s)" % hi.text if hi else "None"),
+                         "str" if base.ty == "strbuf" else base.ty)
             idx = self.expr(n.slice, env, "Z")
             if idx.ty != "Z":
                 _bad("index of type %r" % (idx.ty,), n)
@@ -338,14 +349,20 @@ class FunTr:
             t = self.tmp()
             return E(base.pre + idx.pre + [(t, "tr_index %s %s" % (base.text, idx.text))], t, ety)
         if isinstance(n, ast.ListComp):
-            if len(n.generators) != 1 or n.generators[0].ifs or n.generators[0].is_async \
+            if len(n.generators) != 1 or n.generators[0].is_async \
                     or not isinstance(n.generators[0].target, ast.Name):
-                _bad("only [f(x) for x in l] comprehensions", n)
+                _bad("only [f(x) for x in l if p(x)] comprehensions", n)
             g = n.generators[0]
             it = self.expr(g.iter, env)
             ety = self._elem_ty(it.ty, g.iter)
             env2 = dict(env)
             env2[g.target.id] = ety
+            if g.ifs:
+                conds = [self.cond(c, env2) for c in g.ifs]
+                if any(c.pre for c in conds):
+                    _bad("comprehension filter that may raise", n)
+                it = E(it.pre, "(tr_filter (fun %s => %s) %s)" % (
+                    cname(g.target.id), " && ".join(c.text for c in conds), it.text), ("list", ety))
             body = self.expr(n.elt, env2)
             x = cname(g.target.id)
             if body.pre:
@@ -504,6 +521,45 @@ class FunTr:
                 t = self.tmp()
                 return E(pre + [(t, app)], t, c.ret)
             return E(pre, "(%s)" % app, c.ret)
+        if isinstance(n.func, ast.Attribute):
+            # method call on a typed receiver: spec key "<type>.method", the receiver is the first argument
+            try:
+                recv = self.expr(n.func.value, env)
+            except ExtractError:
+                recv = None
+            if recv is not None:
+                tname = recv.ty if isinstance(recv.ty, str) else recv.ty[0]
+                mkey = "<%s>.%s" % (tname, n.func.attr)
+                if mkey in self.mod.calls:
+                    alts = self.mod.calls[mkey]
+                    alts = alts if isinstance(alts, (list, tuple)) else [alts]
+                    errs = []
+                    for cand in alts:
+                        if len(cand.args) != len(n.args) + 1:
+                            errs.append("arity")
+                            continue
+                        try:
+                            es = [recv] + [self.expr(a, env, w) for a, w in zip(n.args, cand.args[1:])]
+                            texts = [coerce(e.text, e.ty, w, n) for e, w in zip(es, cand.args)]
+                        except ExtractError as ex:
+                            errs.append(str(ex))
+                            continue
+                        pre = sum((e.pre for e in es), [])
+                        app = "%s %s" % (cand.coq, " ".join(texts))
+                        if cand.monadic:
+                            t = self.tmp()
+                            return E(pre + [(t, app)], t, cand.ret)
+                        return E(pre, "(%s)" % app, cand.ret)
+                    _bad("no rendering of %s fits: %s" % (mkey, "; ".join(errs)), n)
+        if key == "enumerate" and len(n.args) == 1:
+            e = self.expr(n.args[0], env)
+            return E(e.pre, "(tr_enumerate %s)" % e.text, ("list", ("tuple", "Z", self._elem_ty(e.ty, n))))
+        if key in ("list", "tuple") and len(n.args) == 1:
+            a0 = n.args[0]
+            if isinstance(a0, ast.GeneratorExp):
+                a0 = ast.copy_location(ast.ListComp(elt=a0.elt, generators=a0.generators), a0)
+            e = self.expr(a0, env, want)
+            return E(e.pre, e.text, ("list", self._elem_ty(e.ty, n)))
         if key == "len" and len(n.args) == 1:
             e = self.expr(n.args[0], env)
             self._elem_ty(e.ty, n)
@@ -584,6 +640,11 @@ class FunTr:
             return nxt(env)
         if isinstance(s, ast.Pass):
             return nxt(env)
+        if isinstance(s, ast.FunctionDef):
+            # a nested helper: must be translated separately (its name must be a key of the spec's calls)
+            if s.name not in self.mod.calls:
+                _bad("nested function %s is not in the spec" % s.name, s)
+            return nxt(env)
         if isinstance(s, ast.Return):
             if self.fun.generator:
                 if s.value is not None:
@@ -655,6 +716,26 @@ class FunTr:
                     lets += "let %s := %s in " % (cname(x.id), coerce(f, ty, dty, s))
                 body = "(let '(%s) := %s in %s%s)" % (", ".join(fresh), e.text, lets, nxt(env2))
                 return wrap(e.pre, body)
+            if isinstance(t, ast.Subscript) and isinstance(t.value, ast.Name) and t.value.id in env:
+                obj = t.value.id
+                oty = env[obj]
+                if not (isinstance(oty, tuple) and oty[0] == "list"):
+                    _bad("item assignment on %r" % (oty,), s)
+                if isinstance(t.slice, ast.Slice):
+                    if t.slice.step is not None:
+                        _bad("slice step", s)
+                    lo = self.expr(t.slice.lower, env, "Z") if t.slice.lower is not None else None
+                    hi = self.expr(t.slice.upper, env, "Z") if t.slice.upper is not None else None
+                    v = self.expr(s.value, env, oty)
+                    pre = (lo.pre if lo else []) + (hi.pre if hi else []) + v.pre
+                    return wrap(pre, "(let %s := tr_slice_assign %s %s %s %s in %s)" % (
+                        cname(obj), cname(obj), "(Some %s)" % lo.text if lo else "None",
+                        "(Some %s)" % hi.text if hi else "None", coerce(v.text, v.ty, oty, s), nxt(env)))
+                v = self.expr(s.value, env, oty[1])     # Python evaluates the value first
+                i = self.expr(t.slice, env, "Z")
+                tmpn = self.tmp()
+                return wrap(v.pre + i.pre + [(tmpn, "tr_set_index %s %s %s" % (cname(obj), i.text, coerce(v.text, v.ty, oty[1], s)))],
+                            "(let %s := %s in %s)" % (cname(obj), tmpn, nxt(env)))
             _bad("assignment target %s" % ast.unparse(t), s)
         if isinstance(s, ast.AugAssign):
             if not isinstance(s.target, ast.Name):
@@ -780,6 +861,30 @@ class FunTr:
         if shared:
             ety = env[s.iter.id][1]
         else:
+            # the iterable is evaluated once, eagerly: only faithful if the body does not change what is
+            # being iterated over — except `N[i] = v` at the current index of `for i, x in enumerate(N)`
+            names = {m.id for m in ast.walk(s.iter) if isinstance(m, ast.Name)}
+            for nm in names & set(self.assigned(s.body)):
+                ok = (isinstance(s.iter, ast.Call) and ast.unparse(s.iter.func) == "enumerate" and len(s.iter.args) == 1
+                      and isinstance(s.iter.args[0], ast.Name) and s.iter.args[0].id == nm
+                      and isinstance(s.target, ast.Tuple) and isinstance(s.target.elts[0], ast.Name))
+                if ok:
+                    idxn = s.target.elts[0].id
+                    if idxn in self.assigned(s.body):
+                        ok = False
+                    for m in ast.walk(ast.Module(body=s.body, type_ignores=[])):
+                        if isinstance(m, (ast.Assign, ast.AugAssign)):
+                            for t in (m.targets if isinstance(m, ast.Assign) else [m.target]):
+                                for q in ast.walk(t):
+                                    if isinstance(q, ast.Name) and q.id == nm:
+                                        if not (isinstance(t, ast.Subscript) and isinstance(t.value, ast.Name) and t.value.id == nm
+                                                and isinstance(t.slice, ast.Name) and t.slice.id == idxn):
+                                            ok = False
+                        if isinstance(m, ast.Call) and isinstance(m.func, ast.Attribute) and isinstance(m.func.value, ast.Name) \
+                                and m.func.value.id == nm and m.func.attr in ("append", "pop", "extend", "insert", "write"):
+                            ok = False
+                if not ok:
+                    _bad("the loop body changes %r, which the loop iterates over" % nm, s)
             it = self.expr(s.iter, env)
             ety = self._elem_ty(it.ty, s)
         # target
@@ -836,6 +941,23 @@ class FunTr:
         a = self.node.args
         if a.vararg or a.kwarg or a.kwonlyargs or a.posonlyargs:
             _bad("unsupported parameter kinds in %s" % self.fun.qual, self.node)
+        # aliasing: `x = y` between mutable lists of which one is later mutated in place cannot be rendered by values
+        mutated = set()
+        for m in ast.walk(self.node):
+            if isinstance(m, ast.Call) and isinstance(m.func, ast.Attribute) and isinstance(m.func.value, ast.Name) \
+                    and m.func.attr in ("append", "pop", "extend", "insert", "write", "sort", "reverse", "remove", "clear"):
+                mutated.add(m.func.value.id)
+            if isinstance(m, (ast.Assign, ast.AugAssign)):
+                for t in (m.targets if isinstance(m, ast.Assign) else [m.target]):
+                    if isinstance(t, ast.Subscript) and isinstance(t.value, ast.Name):
+                        mutated.add(t.value.id)
+        for m in ast.walk(self.node):
+            if isinstance(m, ast.Assign) and isinstance(m.value, ast.Name) and len(m.targets) == 1 \
+                    and isinstance(m.targets[0], ast.Name):
+                x, y = m.targets[0].id, m.value.id
+                ty = self.decl.get(y)
+                if (isinstance(ty, tuple) and ty[0] in ("list", "iter") or ty == "strbuf") and ({x, y} & mutated):
+                    _bad("%s = %s aliases a list that is mutated in place" % (x, y), m)
         names = [x.arg for x in a.args]
         if self.fun.skip_first:
             names = names[1:]
